@@ -49,26 +49,31 @@
 (*        the lists: 'mailfrom yes' has no effect (X04-F1)                  *)
 (*   "DomainNoFilter"  the responses filter is not applied to the answers   *)
 (*        of EHLO / MAIL FROM lookups (X04-F2)                              *)
+(*   "InlineScoreZero"  lists given as module arguments have score 0, not   *)
+(*        the documented "score 1": a listing on them never acts (X04-F3)   *)
 (*   "InlineNoFilter"  lists given as module arguments get no responses     *)
 (*        filter although the documentation calls the two forms equivalent  *)
-(*        (X04-F3)                                                          *)
+(*        (X04-F4)                                                          *)
 (*   "ScopedNoop"  a dnsbl check written in a source / destination block    *)
-(*        never looks anything up and never acts (X04-F4)                   *)
+(*        never looks anything up and never acts (X04-F5)                   *)
 (*   "LiteralSkipsMailFrom"  an address literal in EHLO also suppresses the *)
-(*        list's MAIL FROM lookup (X04-F5; module level only, hidden behind *)
-(*        MailFromNeverChecked in the pipeline)                             *)
+(*        list's MAIL FROM lookup (X04-F6; visible at module level, hidden  *)
+(*        behind MailFromNeverChecked in the pipeline)                      *)
 (***************************************************************************)
 EXTENDS Naturals, Integers, Sequences, FiniteSets, TLC, Json
 
 CONSTANTS MaxLists,  \* most lists per configuration in the score / temp tables
           Devs,      \* deviations switched on in AsIs (as-is configurations only)
-          Gen        \* TRUE: print one ROW line per input
+          Gen,       \* TRUE: print one ROW line per input
+          Seed,      \* seed of the mixed table
+          RandN      \* rows of the mixed table
 
 VARIABLE in
 vars == <<in>>
 
 Range(f) == {f[i] : i \in DOMAIN f}
-AllDevs == {"MailFromNeverChecked", "DomainNoFilter", "InlineNoFilter", "ScopedNoop", "LiteralSkipsMailFrom"}
+AllDevs == {"MailFromNeverChecked", "DomainNoFilter", "InlineScoreZero", "InlineNoFilter", "ScopedNoop",
+            "LiteralSkipsMailFrom"}
 
 -----------------------------------------------------------------------------
 (* Query names (RFC 5782 2.1: octets reversed, decimal; 2.4: 32 nibbles     *)
@@ -213,9 +218,11 @@ ListEval(devs, i, l) ==
       sMf   == Step(mfOn, MfName(i.mf, l.zone), l.ans.mf, Hit(l, l.ans.mf, domF))
   IN Then(Then(sIp, sEhlo), sMf)
 
-RECURSIVE SumRes(_, _, _)
-SumRes(i, ev, k) == IF k > Len(i.lists) THEN 0
-                    ELSE (IF ev[k].res = "listed" THEN ScoreOf(i.lists[k]) ELSE 0) + SumRes(i, ev, k + 1)
+ScoreOfD(devs, l) == IF "InlineScoreZero" \in devs /\ l.form = "inline" THEN 0 ELSE ScoreOf(l)
+RECURSIVE SumRes(_, _, _, _)
+SumRes(devs, i, ev, k) ==
+  IF k > Len(i.lists) THEN 0
+  ELSE (IF ev[k].res = "listed" THEN ScoreOfD(devs, i.lists[k]) ELSE 0) + SumRes(devs, i, ev, k + 1)
 
 RuleD(devs, i) ==
   IF i.place # "global" /\ "ScopedNoop" \in devs
@@ -224,7 +231,7 @@ RuleD(devs, i) ==
     LET ev  == [k \in DOMAIN i.lists |-> ListEval(devs, i, i.lists[k])]
         qs  == UNION {ev[k].q : k \in DOMAIN i.lists}
         err == \E k \in DOMAIN i.lists : ev[k].res = "error"
-        act == IF err THEN "tempreject" ELSE Decide(i, SumRes(i, ev, 1))
+        act == IF err THEN "tempreject" ELSE Decide(i, SumRes(devs, i, ev, 1))
         refused == act \in {"permreject", "tempreject"}
         stg == IF ~refused THEN "none"
                ELSE IF i.level = "module" THEN "none"
@@ -240,7 +247,7 @@ Explains(devSets, i, o) == {D \in devSets : SameOut(o, RuleD(D, i))}
 
 -----------------------------------------------------------------------------
 (* Input tables *)
-Zones == <<"a.bl.test", "b.bl.test", "c.bl.test">>
+Zones == <<"a.bl.test", "b.bl.test", "c.bl.test", "d.bl.test">>
 Given(v) == [given |-> TRUE, v |-> v]
 NotGiven == [given |-> FALSE, v |-> 0]
 DefResp  == [given |-> FALSE, nets |-> <<>>]
@@ -288,7 +295,8 @@ Row(tab, level, place, early, q, r, lists, client, ehlo, mf) ==
 
 (* (a) score table: IPv4 lists with every score, listed or not, every pair of thresholds *)
 ScoreVals(n) == IF n <= 2 THEN {NotGiven, Given(0), Given(1), Given(2), Given(5), Given(0 - 1), Given(0 - 2)}
-                ELSE {NotGiven, Given(2), Given(0 - 1)}
+                ELSE IF n = 3 THEN {NotGiven, Given(2), Given(5), Given(0 - 1)}
+                ELSE {Given(1), Given(0 - 1)}
 QVals == {NotGiven, Given(0), Given(1), Given(2), Given(3)}
 RVals == {NotGiven, Given(1), Given(2), Given(3)}
 InScore ==
@@ -343,8 +351,9 @@ InFilter ==
 
 (* (d) temporary failures: next to listed / clear lists, allow-lists, on     *)
 (* each kind of lookup                                                       *)
+Min(a, b) == IF a < b THEN a ELSE b
 InTemp ==
-  \/ \E n \in 1..MaxLists :
+  \/ \E n \in 1..Min(MaxLists, 3) :
        \E sc \in [1..n -> {Given(1), Given(2), Given(0 - 1)}], ls \in [1..n -> {"nx", "in", "temp"}],
           r \in {NotGiven, Given(2)}, early \in BOOLEAN :
          /\ \E k \in 1..n : ls[k] = "temp"
@@ -401,6 +410,43 @@ InDefaults ==
                         Ans(OfKind(l3), NX, NX))>>,
                 c, EhloDom, MfDom)
 
+(* (h) mixed table: Seed-dependent rows that cross every dimension of the    *)
+(* tables above (1-3 lists of either form with drawn flags, scores, filters  *)
+(* and answers for the three names; drawn identities, thresholds, level,     *)
+(* placement)                                                                *)
+HH(x) == LET y == x % 32749 IN (y * y + 7 * y + 12345) % 32749
+Draw(n, k) == HH(HH(HH(Seed * 911 + n) + 31 * k) + n + k)
+Pick(seq, r) == seq[(r % Len(seq)) + 1]
+Flags3 == <<"yes", "no", "absent">>
+RScores == <<NotGiven, Given(1), Given(2), Given(3), Given(0 - 1), Given(0)>>
+RResps == <<DefResp, DefResp, Resps[2], Resps[3], Resps[4], Resps[5]>>
+RAnswers == <<NX, NX, IN2, IN2, TEMP, A(<<Pool[3]>>, "one"), A(<<Pool[5], Pool[1]>>, "fail"), A(<<>>, "none"),
+              A(<<Pool[6]>>, "one"), A(<<Pool[4]>>, "none")>>
+RClients == <<C4, C4, C6, CM, [fam |-> "v4", oct |-> <<10, 1, 200, 7>>],
+              [fam |-> "v6", oct |-> <<32, 1, 13, 184, 0, 0, 0, 0, 0, 0, 0, 0, 0, 0, 0, 1>>]>>
+RIdents == <<<<EhloDom, MfDom>>, <<EhloDom, MfDom>>, <<EhloDom, MfNull>>, <<EhloDom, MfIdn>>, <<EhloLit4, MfDom>>,
+             <<EhloLit6, MfDom>>, <<EhloSame, MfDom>>, <<EhloUpper, MfDom>>, <<EhloOdd, MfNull>>>>
+RQ == <<NotGiven, Given(0), Given(1), Given(2), Given(3)>>
+RR == <<NotGiven, Given(1), Given(2), Given(3), Given(4)>>
+RList(n, j) ==
+  LET d(k) == Draw(n, 10 * j + k)
+      an == Ans(Pick(RAnswers, d(2)), Pick(RAnswers, d(3)), Pick(RAnswers, d(4)))
+      sc == Pick(RScores, d(9))
+      neg == sc.given /\ sc.v < 0        \* the module refuses ehlo / mailfrom on allow-lists
+  IN IF d(1) % 4 = 0 THEN Inline(Zones[j], an)
+     ELSE Block(Zones[j], Pick(Flags3, d(5)), Pick(Flags3, d(6)),
+                IF neg THEN "no" ELSE Pick(Flags3, d(7)), IF neg THEN "no" ELSE Pick(Flags3, d(8)),
+                sc, Pick(RResps, d(10)), an)
+RandRow(n) ==
+  LET nl == (Draw(n, 1) % 3) + 1
+      lv == Pick(<<"pipeline", "pipeline", "module">>, Draw(n, 2))
+      pl == IF lv = "module" THEN "global"
+            ELSE Pick(<<"global", "global", "global", "global", "source", "destination">>, Draw(n, 3))
+      id == IF pl = "global" THEN Pick(RIdents, Draw(n, 4)) ELSE <<EhloDom, MfDom>>
+  IN Row("mixed", lv, pl, lv = "pipeline" /\ Draw(n, 5) % 2 = 0, Pick(RQ, Draw(n, 6)), Pick(RR, Draw(n, 7)),
+         [j \in 1..nl |-> RList(n, j)], Pick(RClients, Draw(n, 8)), id[1], id[2])
+InMixed == \E n \in 1..RandN : in = RandRow(n)
+
 (* what the harness serves: the answers at the names this specification      *)
 (* computes, for every list and every identity, whether enabled or not      *)
 ZoneOf(i) ==
@@ -413,7 +459,7 @@ ZoneOf(i) ==
   IN cat(1)
 
 -----------------------------------------------------------------------------
-Init == InScore \/ InKinds \/ InFilter \/ InTemp \/ InAddr \/ InPlace \/ InDefaults
+Init == InScore \/ InKinds \/ InFilter \/ InTemp \/ InAddr \/ InPlace \/ InDefaults \/ InMixed
 Next == FALSE /\ UNCHANGED in      \* one state per input (CHECK_DEADLOCK FALSE)
 Spec == Init /\ [][Next]_vars
 
